@@ -26,7 +26,8 @@ one() { # $1 = worktree, $2 = seed dir (relative to $VER)
       C03_B) place=test; tags=seedc03; run=TestSeedC03B;;
       C10_A) place=internal/frontend; tags=c10demo; run=TestC10SeedA;;
       C10_B) place=internal/frontend; tags=c10demo; run=TestC10SeedB;;
-      *) return 99;;
+      *) place=$(python3 -c "import json;print(json.load(open('$SD/meta.json')).get('demo_place',''))" 2>/dev/null); tags=; run='TestSeed'
+         [ -z "$place" ] && return 99;;
     esac
     f=$(ls "$SD"/*_test.go | head -1)
     cp "$f" "$place/zz_seed_demo_test.go"
